@@ -128,7 +128,16 @@ HandleInactive(st) ==
                     /\ st.apps[a].server \in SrvNames(st)
                     /\ st.servers[st.apps[a].server].state = "frozen"
                     /\ st.apps[a].unschedule}
-  IN FoldApps(RemoveAndRelease, st, expired \cup unsched)
+      \* Cell.next_event_at: the earliest moment a retained placement on a down
+      \* server runs out of its data retention (NoNum = none), recomputed by
+      \* every cycle; the master uses it to wake up
+      kept == {a \in AppNames(st) :
+                 /\ st.apps[a].server \in SrvNames(st)
+                 /\ st.servers[st.apps[a].server].state = "down"
+                 /\ RetentionEnd(st, a) > st.clock}
+      ends == {RetentionEnd(st, a) : a \in kept}
+      nea == IF ends = {} THEN NoNum ELSE CHOOSE e \in ends : \A f \in ends : e <= f
+  IN [FoldApps(RemoveAndRelease, st, expired \cup unsched) EXCEPT !.nea = nea]
 
 HandleBlacklisted(st) ==
   FoldApps(RemoveAndRelease, st,
@@ -269,7 +278,7 @@ ProjBkt(r) == [level |-> r.level, parent |-> r.parent, ctr |-> r.ctr]
 Proj(st) == [clock |-> st.clock, servers |-> st.servers,
              buckets |-> [b \in DOMAIN st.buckets |-> ProjBkt(st.buckets[b])],
              apps |-> [a \in DOMAIN st.apps |-> ProjApp(st.apps[a])],
-             groups |-> st.groups, allocs |-> st.allocs]
+             groups |-> st.groups, allocs |-> st.allocs, nea |-> st.nea]
 
 HintS(post) == [a \in AppNames(post) |-> post.apps[a].server]
 HintI(post) == [a \in AppNames(post) |-> post.apps[a].identity]
